@@ -59,6 +59,7 @@ func changeable(f *gen.Func, item reflect.Value) bool { return flagOf(f, item) =
 
 // outcome of one remote write against a fresh world
 type outcome struct {
+	ack      string // "true" | "false" | "absent": the ackRequest element of the write
 	accepted bool
 	results  int
 	errNo    int
@@ -71,6 +72,12 @@ type outcome struct {
 // execute builds a world whose server feature holds init, lets a bound peer send the write and
 // observes the result datagram and the data afterwards.
 func execute(t world.TB, f *gen.Func, init []reflect.Value, u refmodel.Update) outcome {
+	return executeAck(t, f, init, u, "true")
+}
+
+// executeAck: the acknowledgement is optional - requested, declined explicitly or not mentioned.
+// Without it an accepted write is answered with nothing, a refused one still with an error result.
+func executeAck(t world.TB, f *gen.Func, init []reflect.Value, u refmodel.Update, ack string) outcome {
 	w := world.New()
 	defer w.Teardown()
 	le := w.AddLocalEntity([]uint{1}, model.EntityTypeTypeCEM, time.Second)
@@ -82,10 +89,14 @@ func execute(t world.TB, f *gen.Func, init []reflect.Value, u refmodel.Update) o
 		t.Fatalf("harness: binding not granted")
 	}
 	srv.SetData(f.Fn, refmodel.Payload(f, refmodel.CloneItems(init)))
-	o := outcome{}
+	o := outcome{ack: ack}
 	o.before = refmodel.CloneItems(refmodel.ItemsOf(f, srv.DataCopy(f.Fn)))
 	o.beforeJS = world.JSON(srv.DataCopy(f.Fn))
-	d := p.Msg(model.CmdClassifierTypeWrite, p.FA([]uint{1}, 1), srv.Address(), true, nil, listgen.Cmd(f, u))
+	d := p.Msg(model.CmdClassifierTypeWrite, p.FA([]uint{1}, 1), srv.Address(), ack == "true", nil, listgen.Cmd(f, u))
+	if ack == "false" {
+		no := false
+		d.Header.AckRequest = &no
+	}
 	p.Send(d)
 	w.Sync()
 	for _, s := range p.Cap.Drain() {
@@ -95,6 +106,9 @@ func execute(t world.TB, f *gen.Func, init []reflect.Value, u refmodel.Update) o
 		}
 	}
 	o.accepted = o.results == 1 && o.errNo == 0
+	if ack != "true" {
+		o.accepted = o.results == 0
+	}
 	o.after = refmodel.CloneItems(refmodel.ItemsOf(f, srv.DataCopy(f.Fn)))
 	o.afterJS = world.JSON(srv.DataCopy(f.Fn))
 	return o
@@ -175,8 +189,11 @@ func judge(t world.TB, f *gen.Func, u refmodel.Update, o outcome) {
 	desc := func() string {
 		return fmt.Sprintf("\n write:  %s\n before: %s\n after:  %s\n result: count=%d error=%d", world.JSON(listgen.Describe(f, u)), o.beforeJS, o.afterJS, o.results, o.errNo)
 	}
-	if o.results != 1 {
+	if o.ack == "true" && o.results != 1 {
 		world.Fail(t, "C04/result-count/"+shape, "an acknowledged authorised write got %d results%s", o.results, desc())
+	}
+	if o.ack != "true" && (o.results > 1 || (o.results == 1 && o.errNo == 0)) {
+		world.Fail(t, "C04/result-count/"+shape+"/no-ack", "an authorised write with ackRequest %s got %d results (last error number %d): nothing when accepted, one error result when refused%s", o.ack, o.results, o.errNo, desc())
 	}
 	addr := addressed(f, o.before, u)
 	after := byKey(f, o.after)
@@ -311,7 +328,9 @@ func TestWriteProtection(t *testing.T) {
 		f := gen.ByFunction(rapid.SampledFrom(functions).Draw(t, "function"))
 		shape := rapid.SampledFrom(listgen.ShapesFor(f)).Draw(t, "shape")
 		init, u := genCase(t, f, shape)
-		o := execute(t, f, init, u)
+		ack := rapid.SampledFrom([]string{"true", "true", "false", "absent"}).Draw(t, "ackRequest")
+		world.Label("ackRequest/" + ack)
+		o := executeAck(t, f, init, u, ack)
 		addr := addressed(f, o.before, u)
 		nAddr := 0
 		for _, a := range addr {
@@ -357,7 +376,7 @@ func TestWriteProtection(t *testing.T) {
 			if len(variant) == 0 {
 				continue
 			}
-			o2 := execute(t, f, variant, u)
+			o2 := executeAck(t, f, variant, u, ack)
 			world.Label("metamorphic/" + name)
 			if o2.accepted != o.accepted {
 				world.Fail(t, "C04/unaddressed-element-influences-verdict/"+sigShape(u), "P6 (%s): verdict accepted=%v, but accepted=%v on the variant world\n write: %s\n world 1: %s\n world 2: %s", name, o.accepted, o2.accepted, world.JSON(listgen.Describe(f, u)), o.beforeJS, o2.beforeJS)
